@@ -500,11 +500,14 @@ func (p *parser) ToASCII(src string, beStrict bool) (string, error) {
 // containsOnlyASCIIOrMiscAndNoPunycode returns true if the string contains only ASCII characters or characters from Section 4.1.1 in UTS #46
 // and does not contain any labels starting with acePrefix (xn--)
 func containsOnlyASCIIOrMiscAndNoPunycode(s string) bool {
-	s = strings.ToLower(s)
 	p := 0
 	for _, r := range s {
 		if r >= utf8.RuneSelf && r != '\u2260' && r != '\u226e' && r != '\u226f' {
 			return false
+		}
+		// Lowercase ASCII only: strings.ToLower would fold U+0130 and U+212A to ASCII letters
+		if 'A' <= r && r <= 'Z' {
+			r += 'a' - 'A'
 		}
 		switch {
 		case r == '.':
